@@ -182,14 +182,14 @@ func TestReplayC09(t *testing.T) {
 // ---- C10 / C08: failing and fragmenting sources
 
 type scriptedSource struct {
-	data   []byte
-	pos    int64
-	calls  int
-	failAt int   // index of the Read/Seek call that fails (-1: never)
-	chunk  int   // max bytes per Read (0: unlimited)
-	rnd    *rand.Rand
+	data        []byte
+	pos         int64
+	calls       int
+	failAt      int // index of the Read/Seek call that fails (-1: never)
+	chunk       int // max bytes per Read (0: unlimited)
+	rnd         *rand.Rand
 	eofWithData bool
-	failed bool
+	failed      bool
 }
 
 func (s *scriptedSource) Read(p []byte) (int, error) {
@@ -542,7 +542,19 @@ func TestReplayC12(t *testing.T) {
 			}
 		}
 		page := 1 + r.Intn(4)
-		file := writeFile(t, rs, page, []int{n}, Uncompressed)
+		// one to three row groups: an accumulator that survives from one row group into the
+		// next (or a page of the overflow chain) shows as min/max on an all-null page or
+		// as bounds that miss values
+		batches := []int{n}
+		if n >= 2 && round%3 != 0 {
+			a := 1 + r.Intn(n-1)
+			batches = []int{a, n - a}
+			if n-a >= 2 && round%3 == 2 {
+				b := 1 + r.Intn(n-a-1)
+				batches = []int{a, b, n - a - b}
+			}
+		}
+		file := writeFile(t, rs, page, batches, Uncompressed)
 		footer, err := parquet.ReadMetaData(bytes.NewReader(file))
 		if err != nil {
 			t.Fatal(err)
@@ -558,17 +570,27 @@ func TestReplayC12(t *testing.T) {
 			less func(a, b []byte) bool
 		}{}
 		_ = cols
-		checkStringCol(t, "name", hs, rs, page, round)
-		// numeric columns (schema order: id 0, ratio 4, count 5, amount 9): bounds in the column type's order
-		checkNumCol(t, "id", 0, hs, rs, page, round, func(x Rec) (float64, int64, uint64, bool) { return 0, x.ID, 0, true }, 'i', 8)
-		checkNumCol(t, "count", 5, hs, rs, page, round, func(x Rec) (float64, int64, uint64, bool) { return 0, 0, uint64(x.Count), true }, 'u', 4)
-		checkNumCol(t, "amount", 9, hs, rs, page, round, func(x Rec) (float64, int64, uint64, bool) { return 0, int64(x.Amount), 0, true }, 'i', 4)
-		checkNumCol(t, "ratio", 4, hs, rs, page, round, func(x Rec) (float64, int64, uint64, bool) {
-			if x.Ratio == nil {
-				return 0, 0, 0, false
-			}
-			return *x.Ratio, 0, 0, true
-		}, 'f', 8)
+		allHs, allRs := reflect.ValueOf(hs), rs
+		ncols := len(footer.RowGroups[0].Columns)
+		hoff, roff := 0, 0
+		for _, nb := range batches {
+			np := (nb + page - 1) / page
+			hs := allHs.Slice(hoff, hoff+ncols*np).Interface()
+			rs := allRs[roff : roff+nb]
+			hoff += ncols * np
+			roff += nb
+			checkStringCol(t, "name", hs, rs, page, round)
+			// numeric columns (schema order: id 0, ratio 4, count 5, amount 9): bounds in the column type's order
+			checkNumCol(t, "id", 0, hs, rs, page, round, func(x Rec) (float64, int64, uint64, bool) { return 0, x.ID, 0, true }, 'i', 8)
+			checkNumCol(t, "count", 5, hs, rs, page, round, func(x Rec) (float64, int64, uint64, bool) { return 0, 0, uint64(x.Count), true }, 'u', 4)
+			checkNumCol(t, "amount", 9, hs, rs, page, round, func(x Rec) (float64, int64, uint64, bool) { return 0, int64(x.Amount), 0, true }, 'i', 4)
+			checkNumCol(t, "ratio", 4, hs, rs, page, round, func(x Rec) (float64, int64, uint64, bool) {
+				if x.Ratio == nil {
+					return 0, 0, 0, false
+				}
+				return *x.Ratio, 0, 0, true
+			}, 'f', 8)
+		}
 	}
 }
 
@@ -596,7 +618,9 @@ func checkNumCol(t *testing.T, col string, ci int, hs interface{}, rs []Rec, pag
 		minB, maxB := st.FieldByName("MinValue").Bytes(), st.FieldByName("MaxValue").Bytes()
 		nc := st.FieldByName("NullCount")
 		var nulls int64
+		entries := 0
 		for i := p * page; i < (p+1)*page && i < len(rs); i++ {
+			entries++
 			f, sv, uv, ok := get(rs[i])
 			if !ok {
 				nulls++
@@ -623,6 +647,9 @@ func checkNumCol(t *testing.T, col string, ci int, hs interface{}, rs []Rec, pag
 			if bad {
 				t.Errorf("REPLAY-FAIL C12 round=%d column=%s page=%d: value (%v %d %d) outside the page bounds [% x, % x]", round, col, p, f, sv, uv, minB, maxB)
 			}
+		}
+		if int(nulls) == entries && (len(minB) != 0 || len(maxB) != 0) {
+			t.Errorf("REPLAY-FAIL C12 round=%d column=%s page=%d: no entry of the page has a value but min/max are present [% x, % x]", round, col, p, minB, maxB)
 		}
 		if !nc.IsNil() && nc.Elem().Int() != nulls {
 			t.Errorf("REPLAY-FAIL C12 round=%d column=%s page=%d: null_count %d, %d entries without a value", round, col, p, nc.Elem().Int(), nulls)
